@@ -15,7 +15,14 @@ THEOREMS = ['C20.scope_injective', 'C20.scope_stable', 'C20.chain_claims', 'C20.
             'C20.conv_in_fragment', 'C20.conv_ground_closed', 'C20.converted_step_in_fragment', 'C20.functional_assumption_ok',
             'C20.nonground_value_refused', 'C20.k_module_side', 'C20.k_module_accepted', 'C20.k_module_accepted_general',
             'C20.k_module_bytes_accepted', 'C20.k_module_u8_accepted', 'C20.k_module_sound', 'C20.Example.hypotheses_hold', 'C20.Example.accepted',
-            'C20.Example.sound']
+            'C20.Example.sound',
+            # ... from the TEXTS (translated from_proof_hints / from_kore_definition / get_proof_hints / execute_full) and for the memoising
+            # serialisation with ANY suggestion set (Props/C20c.lean, KoreText.lean, KModEq.lean, KModMemo.lean)
+            'C20.k_trace_text_module_accepted', 'C20.k_trace_text_module_u8_accepted', 'C20.k_trace_text_module_sound',
+            'C20.k_pipeline_text_module_accepted', 'C20.k_pipeline_ground_text_module_accepted', 'C20.eq_truthful_on_quiet', 'C20.k_patterns_quiet',
+            'C20.k_module_cfg_accepted', 'C20.k_module_memo_accepted', 'C20.k_module_memo_bytes_accepted', 'C20.k_module_memo_sound',
+            'C20.k_trace_text_module_memo_accepted', 'C20.Example.text_accepted', 'C20.Example.pipeline_ground_accepted', 'C20.Example.memo_accepted',
+            'C20.Example.quiet_boundary']
 
 
 def unhex(h):
@@ -24,7 +31,7 @@ def unhex(h):
 
 def run(rep):
     rng = random.Random(rep.seed * 1000003 + 20)
-    ok, detail = core.proof_gate(rep, 'Pi2.Props.C20b', THEOREMS)
+    ok, detail = core.proof_gate(rep, 'Pi2.Props.C20c', THEOREMS)
     core.rust_build()
     quick = rep.tier == 'quick'
     findings = []
